@@ -3,6 +3,7 @@ pub mod nd;
 pub mod refcal;
 pub mod env;
 pub mod c01;
+pub mod c12;
 
 #[cfg(kani)]
 mod gen;
@@ -15,5 +16,6 @@ pub type Body = fn(&mut In, &[i64]);
 pub fn registry() -> Vec<(&'static str, Body)> {
   let mut v: Vec<(&'static str, Body)> = Vec::new();
   v.extend(c01::registry());
+  v.extend(c12::registry());
   v
 }
